@@ -120,11 +120,17 @@ def inject(rng, f0, kind):
         ti = rng.randrange(len(f["types"]))
         t = f["types"][ti]
         t["extend"] = True
-        if not t["rels"]:
+        # each of the two blocks with or without relations, in either order: the same type is extended twice in all four cases
+        shape = rng.choice(["full-full", "full-full", "bare-full", "full-bare", "bare-bare"])
+        if shape.startswith("bare"):
+            t["rels"] = []
+        elif not t["rels"]:
             t["rels"] = [("r1", {"first": ("rw", "x", None), "op": None, "rest": []})]
-        t2 = {"name": t["name"], "extend": True, "rels": [("r2", {"first": ("rw", "y", None), "op": None, "rest": []})]}
-        f["types"].insert(rng.randrange(len(f["types"]) + 1), t2)
-        return f, {"type": ti}
+        t2 = {"name": t["name"], "extend": True,
+              "rels": [] if shape.endswith("bare") else [("r2", {"first": ("rw", "y", None), "op": None, "rest": []})]}
+        # the copy goes behind the first block (so that "bare-full" is bare first), or anywhere
+        f["types"].insert(rng.randrange(ti + 1, len(f["types"]) + 1) if rng.random() < 0.7 else rng.randrange(len(f["types"]) + 1), t2)
+        return f, {"type": ti, "shape": shape}
     if kind == "both-headers":
         f["header"] = (rng.choice(["both", "both2"]),)
         return f, {}
